@@ -6,17 +6,21 @@ from geom import snap_glyphset
 from ufo import build, rat
 
 ID = "C15"
-PROOF_FILES = ["Geom", "Reverse", "Render", "Flatten", "Propagate", "Propagate2", "Transform", "GoodCert", "C15", "TotalGeom", "TotalFilters", "TotalFilters2", "Total"]
+PROOF_FILES = ["Geom", "Reverse", "Render", "Flatten", "Propagate", "Propagate2", "Transform", "GoodCert", "C15", "PropagateNum", "TotalGeom", "TotalFilters", "TotalFilters2", "Total"]
 THEOREM = ("Ufo2ft.C15.* (affine algebra, reversal laws, bake lemma, decompose/flatten render preservation, compensation; "
            "C15_transform / transform_convex / transform_all: the whole TransformationsFilter maps every included glyph exactly once; "
            "C15_propagate (+ _placed, _complete, _idempotent, _no_override): the whole PropagateAnchorsFilter satisfies holdsPropagate; "
-           "C15_propagateP / C15_propagate_promotion / promoteSplit_promotes / promoteSplit_raises: the mark-ligature promotion); TOTALITY (Props/Total*.lean): runFilter_*_ok, C15_decompose_total / _decomposeTransformed_total / _flatten_total / _transform_total / C15_propagate_total / _outcome / C15_propagate_idempotent_total, promoteSplit_error_iff - every filter returns a result on every well-formed closed glyph set; anchor propagation raises only Exception, only when a ligature-mark-named glyph has a component without bounds; the second run always exists")
+           "C15_propagateP / C15_propagate_promotion / promoteSplit_promotes / promoteSplit_raises: the mark-ligature promotion; "
+           "C15_propagate_numbering / C15_propagateN / propagate_numbered / found_length (Props/PropagateNum.lean): one entry per carrying COMPONENT - an added anchor is named "
+           "exactly like a base anchor, or name_N with 2 <= #components whose base carries name and N <= that number); TOTALITY (Props/Total*.lean): runFilter_*_ok, C15_decompose_total / _decomposeTransformed_total / _flatten_total / _transform_total / C15_propagate_total / _outcome / C15_propagate_idempotent_total, promoteSplit_error_iff - every filter returns a result on every well-formed closed glyph set; anchor propagation raises only Exception, only when a ligature-mark-named glyph has a component without bounds; the second run always exists")
 N = {"quick": 500, "thorough": 8000}
 RULE = ("random component graphs (depth<=4, shared bases, dyadic affine matrices incl. mirrors, shears, rotations, singular) with "
         "line/curve/qcurve contours on a 1/8 grid, x each filter in {decompose, decomposeTransformed, flatten, transformations, "
         "propagateAnchors} x include subsets x ufoLib2/defcon; 45% of the propagateAnchors cases are the mark-ligature stream (2-4 mark "
         "glyphs, line outlines, some empty / open / with a curve, nested mark composites, composites named a_b / a_b.alt / _a_b / ab of 2-3 "
-        "marks at offsets of equal length -> exact distance ties, duplicated components, a non-mark base sometimes); the real filter is applied to a glyph set and the glyph set before/after "
+        "marks at offsets of equal length -> exact distance ties, duplicated components, a non-mark base sometimes); in half of the other propagateAnchors cases "
+        "(and for 25% of the mark glyphs of the ligature stream) glyphs carry DUPLICATED anchor names (a second/third anchor of an existing name at another position, "
+        "inserted anywhere in the list - legal in UFO, both libraries keep a list), tagged dupanchor:used-by-included-composite when an included composite has such a base; the real filter is applied to a glyph set and the glyph set before/after "
         "is compared with the Lean model point for point, and the declarative predicate (spec renderer) is evaluated on the observed "
         "result. non-trivial = some glyph reaches depth>=2 or has a det<0 component, and the filter modified something "
         "(mark-ligature stream: a ligature-named composite was modified).")
@@ -62,6 +66,9 @@ def ligmark_font(rng, mode):
             g["anchors"].append([side, rng.choice([0, 12, 30]), rng.choice([700, 690.5, -200])])
         if rng.random() < 0.3:
             g["anchors"].append([rng.choice(["ogonek", "top.alt", "bottom", "top_1"]), rng.randrange(-50, 50), rng.randrange(-50, 50)])
+        if rng.random() < 0.25:
+            an = rng.choice(g["anchors"])      # a duplicated anchor name: the first one counts
+            g["anchors"].insert(rng.randrange(len(g["anchors"]) + 1), [an[0], an[1] + rng.choice([10, -7.5]), an[2] + rng.choice([20, 0.5])])
         glyphs.append(g)
     pool = list(marks)
     if rng.random() < 0.35:                  # a nested mark: composite of one mark with an own mark anchor
@@ -148,6 +155,15 @@ def gen(rng, n, mode):
                     g["anchors"] = [["_top", 10, 500.5]] + ([["top", 12, 700]] if rng.random() < 0.5 else [])
                 if rng.random() < 0.1 and not g["components"]:
                     g["anchors"].append(["top_1", 5, 6]); g["anchors"].append(["top_2", 50, 6])
+            if rng.random() < 0.5:
+                # duplicated anchor names (legal in a UFO: anchors are a list, names are no keys; left-over / alternate
+                # anchors): `_get_anchor_data` takes the FIRST anchor of a name per component, one entry per COMPONENT
+                for g in fd["glyphs"]:
+                    if g["anchors"] and rng.random() < 0.6:
+                        for _ in range(rng.choice([1, 1, 2])):
+                            an = rng.choice(g["anchors"])[0]
+                            g["anchors"].insert(rng.randrange(len(g["anchors"]) + 1),
+                                                [an, rng.randrange(-300, 600) / 4, rng.randrange(-300, 900) / 4])
             marks = [nm for nm in names if nm.endswith("comb") or rng.random() < 0.1]
         yield {"filter": flt, "fd": fd, "include": include, "opts": opts, "marks": marks,
                "lib": rng.choice(["ufoLib2", "defcon"]), "missing": mode == "search" and rng.random() < 0.1}
@@ -246,6 +262,10 @@ def run(case):
     tags = ([case["stream"], "promoted:" + ("yes" if promoted else "no"), "tie:" + ("yes" if tie else "no"),
              "bounds:" + ("pen-measured(curve)" if curved else "modelled")] if case.get("stream") else []) + [flt, case["lib"], "include:" + ("all" if case["include"] is None else "subset"), "err:" + str(obs.get("err")),
             "modified:" + ("yes" if obs.get("modified") else "no")] + (["det<0"] if neg else [])
+    if flt == "propagateAnchors":
+        dupg = {g["name"] for g in fd["glyphs"] if len({a[0] for a in g["anchors"]}) < len(g["anchors"])}
+        used = any(c[0] in dupg for g in fd["glyphs"] for c in g["components"] if case["include"] is None or g["name"] in case["include"])
+        tags.append("dupanchor:" + ("used-by-included-composite" if used else "in-a-glyph" if dupg else "no"))
     return [{"op": "filter", "in": inp, "obs": obs, "tags": tags, "nontrivial": nontrivial}]
 
 
@@ -330,8 +350,12 @@ LEVEL_TEXT = ("Proved (Lean, all inputs): fontTools Transform algebra (compose =
               "anchor at T(anchor) of a component's base in the final set under its name or name_N, never under a name the glyph had, "
               "nothing missing on base-only composites, a second run changes nothing; C15_propagateP adds the mark-ligature promotion: "
               "exactly one mark component - the first of minimal squared distance of its bounds' corner to the origin - becomes the base, "
-              "the composite carries all and only its anchor names, the run raises exactly when a component has no bounds); the executable models of all five filters are tied to the code point "
+              "the composite carries all and only its anchor names, the run raises exactly when a component has no bounds; C15_propagateN adds the numbering "
+              "discipline numberingWrong: every added anchor bears exactly the name of an anchor of a component's base, or name_N with at least two components whose base "
+              "carries name and 1 <= N <= their number - a base with several anchors of one name counts once, its FIRST anchor of that name is the one propagated (model: find?)); the executable models of all five filters are tied to the code point "
               "for point by the correspondence run, and the declarative render-equality predicate is evaluated on the real output.")
 LEVEL_NOTE = ("Trusted: Lean kernel + standard axioms; correspondence harness and its dyadic generators; Slant (tan) is not modelled; the bounds "
               "of components whose outline has curve segments are measured by the harness (fontTools BoundsPen), line outlines are modelled; TransformationsFilter's include-gap double application "
-              "is a known finding (see known_findings.json), any other failure is a violation.")
+              "is a known finding (see known_findings.json), any other failure is a violation. With duplicated anchor names in a base the declarative predicate "
+              "fixes the NAMES (numbering clause) and accepts the position of any base anchor of that name; that it is the first one is checked by the point-for-point "
+              "correspondence with the model only.")
